@@ -485,39 +485,29 @@ def check(ctx):
                 r1b.bad(V(r1b.id, n, "serde-skip:%s.%s" % (n, fld["name"]), "digest input field %s.%s carries %s" % (n, fld["name"], skip[0]["tokens"])))
             else:
                 r1b.ok("%s.%s serialised" % (n, fld["name"]))
-    newf = None
+    # the stored combined_hash is computed from every hash_* digest: backward data slice of the field across crate functions (a combiner that ignores one
+    # of its inputs does not carry it), however the combination is written (combine_hashes(a, b, c, d), an array of them, format! in place)
+    need = sorted(set(k.split("::")[-1] for k in P.fns if re.match(r"^tauri_typegen::build::generation_cache::GenerationCache::hash_\w+$", k)))
+    aggs = []
     for k in cache_news:
-        if any(short_path(c.best) == "GenerationCache::combine_hashes" for c in P.fns[k].calls):
-            newf = P.fns[k]
-    if newf is None:
-        r1b.bad(V(r1b.id, CACHE_NEW, "no-combine", "no GenerationCache::new* combines the digests"))
-    if newf:
-        cc = [c for c in newf.calls if short_path(c.best) == "GenerationCache::combine_hashes"]
-        if not cc:
-            r1b.bad(V(r1b.id, CACHE_NEW, "no-combine", "GenerationCache::new does not combine the digests"))
+        g_ = P.fns[k]
+        for b_ in sorted(g_.reach_blocks):
+            for st in g_.blocks[b_]["stmts"]:
+                rv = st.get("rv") or {}
+                if rv.get("k") == "aggr" and rv.get("adt", "").endswith("GenerationCache") and "combined_hash" in rv.get("fields", []):
+                    aggs.append((g_, rv))
+    if not aggs:
+        r1b.bad(V(r1b.id, CACHE_NEW, "no-combine", "no GenerationCache::new* builds a record with a combined digest"))
+    for (g_, rv) in aggs:
+        got, fed = P.value_slice(g_, rv["ops"][rv["fields"].index("combined_hash")], depth=12)
+        # every input of the constructor (commands, structs, configuration, events) reaches the digest ...
+        lost = [g_.varnames.get(i, "arg%d" % i) for i in range(1, g_.arg_count + 1) if i not in fed]
+        # ... through its own digest function where the tree has one
+        miss = [n for n in need if ("GenerationCache::" + n) not in got and any(short_path(c.best) == "GenerationCache::" + n for k2 in P.family(g_.id) for c in P.fns[k2].calls)]
+        if g_.arg_count >= 3 and not lost and not miss:
+            r1b.ok("GenerationCache.combined_hash is computed from every input of %s (%s)" % (short_path(g_.id), ", ".join(n for n in need if "GenerationCache::" + n in got)))
         else:
-            got = []
-            for a in cc[0].args:
-                got.append(newf.describe_origin(newf.origin(a), deep=3))
-                got.extend(sorted(newf.feeding_calls(a)))       # `combine_hashes(&[a.as_str(), b.as_str(), ..])`
-            need = sorted(set(k.split("::")[-1] for k in P.fns if re.match(r"^tauri_typegen::build::generation_cache::GenerationCache::hash_\w+$", k)))
-            if all(any(n in g for g in got) for n in need):
-                r1b.ok("combine_hashes(%s)" % ", ".join(n for n in need))
-            else:
-                r1b.bad(V(r1b.id, CACHE_NEW, "combine-args:%s" % "|".join(sorted(set(n for n in need if not any(n in g for g in got)))),
-                          "combine_hashes does not receive all three digests: %s" % got))
-            # the stored combined_hash is the combination
-            agg = [st for blk in newf.blocks for st in blk["stmts"] if st.get("rv", {}).get("k") == "aggr" and st["rv"].get("adt", "").endswith("GenerationCache")]
-            okc = False
-            for st in agg:
-                rv = st["rv"]
-                idx = rv["fields"].index("combined_hash") if "combined_hash" in rv["fields"] else None
-                if idx is not None and "combine_hashes" in newf.describe_origin(newf.origin(rv["ops"][idx]), deep=3):
-                    okc = True
-            if okc:
-                r1b.ok("GenerationCache.combined_hash = combine_hashes(..)")
-            else:
-                r1b.bad(V(r1b.id, CACHE_NEW, "combined_hash-origin", "the stored combined_hash is not the combination of the three digests"))
+            r1b.bad(V(r1b.id, CACHE_NEW, "combine-args:%s" % "|".join(lost + miss), "the stored combined digest is not computed from %s (it is fed by %s)" % (lost + miss, sorted(got))))
     nrf = None
     for k in sorted(P.reachable([NR])):
         g = P.fns[k]
